@@ -14,7 +14,8 @@ RULE = ("random nondeterministic PDAs (<=3 states, <=2 stack symbols, <=6 transi
         "(incl. variables named #TERM#a, variable/terminal value clash); to_pda, to_cfg, to_final_state, "
         "to_empty_stack and chains of them are judged on every word of length <=%d over the input alphabet plus a "
         "foreign symbol against an exact PDA acceptance oracle (summary fixpoint) and the bounded CFG language. "
-        "Non-trivial: the bounded language is non-empty; distinct = case hash." % N)
+        "Non-trivial: the bounded language is non-empty; distinct = case hash." % N +
+        " Later additions: one transition pushing three symbols each popped in a state of its own; epsilon moves spelled 'epsilon' / Epsilon() / Symbol('epsilon'); print-alike and equal-hash values; add_transitions; the PDA is also compared with the case record.")
 ASSUMPTIONS = ["comparison bounded to words of length <= %d" % N,
                "PDAs have a start state and a start stack symbol"]
 TIERS = {
